@@ -215,7 +215,7 @@ def cases(seed: int = 0, thorough: bool = False):
     for st, sp, step in itertools.product([None, -5, -4, -3, 0, 3, 4, 5], [None, -5, -4, -3, 0, 3, 4, 5], [1, 2, -1, -2]):
         ix = np.s_[:, st:sp:step]
         add(f"slice-bounds:{st}:{sp}:{step}", lambda x, ix=ix: x[ix], lambda x, ix=ix: x[ix], {"x": a24}, "index", exact=True)
-    i1, i2 = np.array([1, 0, -1, 1]), np.array([[0, 2], [-1, 1]])
+    i1, i2 = np.array([1, 0, -1, 1]), np.array([[0, 1], [-1, 1]])
     for lbl, mk in [("x[i]", lambda x, i, j: x[i]), ("x[:, i]", lambda x, i, j: x[:, i]), ("x[i, :, i]", lambda x, i, j: x[i, :, i]),
                     ("x[j]", lambda x, i, j: x[j]), ("x[i, i]", lambda x, i, j: x[i, i]),
                     ("x[0, j]", lambda x, i, j: x[0, j]), ("x[:, j, 1]", lambda x, i, j: x[:, j, 1]),
